@@ -14,3 +14,5 @@ mod codecs;
 mod tables;
 #[cfg(kani)]
 mod stdwrap;
+#[cfg(kani)]
+mod nv;
